@@ -223,7 +223,7 @@ def render_paths(root, target):
 def root_token(message):
   """The text after the *last* '<root>' up to whitespace (the diagnostic is
   appended after the original message)."""
-  i = message.rfind('Fiddle context:')
+  i = message.rfind('<root>')
   if i < 0:
     return None
   m = re.search(r'<root>(\S*)', message[i:])
@@ -314,7 +314,10 @@ def run_fault(root, failing, shape_name, res, case, variant='plain'):
       'plain', 'bad_repr_exception', 'no_qualname', 'reraised',
       'mutating_empty', 'mutating_nonempty', 'mutating_shared') and shape_name not in (
           'strict_new', 'immutable')
-  if tok is None:
+  if tok is None and must and any(
+      c and c in s_esc[len(s_orig):] for c in candidates):
+    pass      # the path is named, in another notation than <root>...
+  elif tok is None:
     if must:
       res.violation(
           f'C05/no-path-in-diagnostic/{label}/{variant}',
